@@ -410,8 +410,12 @@ Next == (\E o \in Outcomes : Choose(o)) \/ Compute \/ Report \/ Compile
 Spec == Init /\ [][Next]_vars
 
 done == phase = "done"
-HasStats == phase \in {"computed", "reported", "done"}
-HasTables == phase \in {"reported", "done"}
+
+\* What an action has produced is never touched again (UNCHANGED in every later action), so each
+\* invariant below is evaluated in the phase that has just produced its subject.
+Frozen == [][/\ phase # "init" => raw' = raw
+             /\ phase \in {"computed", "reported"} => stats' = stats
+             /\ phase = "reported" => tables' = tables]_vars
 
 (***************************************************************************)
 (* Properties checked by TLC on the model itself.                          *)
@@ -423,11 +427,11 @@ WellFormed(o) ==
     /\ MIsSym(o.H, o.K) /\ MIsSym(o.B, o.K)
     /\ o.N >= 1
     /\ o.boot.ex => Len(o.boot.r) >= 2 /\ \A r \in 1..Len(o.boot.r) : Len(o.boot.r[r]) = o.K
-RawWellFormed == phase # "init" => WellFormed(raw)
+RawWellFormed == phase = "raw" => WellFormed(raw)
 
 \* the pseudo-inverse used for the classical covariance satisfies the four Penrose conditions;
 \* it is the inverse whenever -H is regular
-Penrose == phase # "init" =>
+Penrose == phase = "raw" =>
     LET A == MNeg(raw.H, raw.K)
         V == ClassicalCov(raw)
     IN  /\ PenroseHolds(A, V, raw.K)
@@ -435,7 +439,7 @@ Penrose == phase # "init" =>
 
 \* KEY INVARIANT.  Family separation: inside each of classical / robust / bootstrap, se, t, p,
 \* correlation and pairwise test are those of THAT family's covariance, recomputed from the raw outcome.
-FamilySeparation == HasStats =>
+FamilySeparation == phase = "computed" =>
     \A k \in 1..Len(FamNames) :
         LET F == FamNames[k]
             C == CovOf(raw, F)
@@ -462,14 +466,14 @@ FamilySeparation == HasStats =>
 
 \* covariance matrices are symmetric; a sample covariance and a sandwich around a PSD BHHH have a
 \* non-negative diagonal; Cauchy-Schwarz for the sample covariance
-CovSane == phase # "init" =>
+CovSane == phase = "raw" =>
     /\ \A k \in 1..Len(FamNames) : MIsSym(CovOf(raw, FamNames[k]).num, raw.K) /\ CovOf(raw, FamNames[k]).den > 0
     /\ MIsPSD(raw.B, raw.K) => \A i \in 1..raw.K : RobustCov(raw).num[i][i] >= 0
     /\ raw.boot.ex => LET C == BootCov(raw) IN
           \A i, j \in 1..raw.K : C.num[i][i] >= 0 /\ C.num[i][j] * C.num[i][j] <= C.num[i][i] * C.num[j][j]
 
 \* identities between the summary statistics that do not go through their definitions
-GeneralSane == HasStats =>
+GeneralSane == phase = "computed" =>
     LET G == stats.gen
         o == raw
     IN  /\ QAdd(G.AIC.v, QMul(I(2), o.L)) = I(2 * o.K)
@@ -492,7 +496,7 @@ PairMeaning ==
       <<"Rob. cov.", "rob", "cov">>, <<"Rob. corr.", "rob", "corr">>, <<"Rob. t-test", "rob", "tt">>, <<"Rob. p-value", "rob", "pp">>,
       <<"Boot. cov.", "boot", "cov">>, <<"Boot. corr.", "boot", "corr">>, <<"Boot. t-test", "boot", "tt">>, <<"Boot. p-value", "boot", "pp">> }
 
-TablesNamed == HasTables =>
+TablesNamed == phase = "reported" =>
     LET o == raw
         estOK(T) == \A q \in 1..Len(T.cells) :
                         LET c == T.cells[q] IN
@@ -585,7 +589,12 @@ Emitted ==
                 cls |-> CompactFamily(stats.cls, raw.K), rob |-> CompactFamily(stats.rob, raw.K),
                 boot |-> CompactFamily(stats.boot, raw.K)],
      tables |-> tables,
-     compiled |-> [tables |-> compiled.tables,
+     \* of the compiled tables only the column of the current model is printed: the columns of the
+     \* companions are printed once, by the behaviours in which a companion is the current model
+     compiled |-> [tables |-> [v \in 1..Len(compiled.tables) |->
+                                 LET T == compiled.tables[v] IN
+                                 [formatted |-> T.formatted, std |-> T.std, ttest |-> T.ttest, cols |-> T.cols,
+                                  cells |-> SelectSeq(T.cells, LAMBDA c : c[2] = raw.id)]],
                    lrt |-> [q \in 1..Len(compiled.lrt) |->
                               LET e == compiled.lrt[q] IN
                               [other |-> e.other, alpha |-> e.alpha, def |-> e.def, refused |-> e.refused,
